@@ -50,7 +50,20 @@ class ErrR(ProgErr):
 
 
 EXC_CLASSES = {'E': ProgErr, 'L': ErrL, 'K': ErrK, 'I': ErrI, 'V': ErrV, 'R': ErrR}
-PRIV_CLASSES = {'A': AssertionError, 'KI': KeyboardInterrupt, 'SE': SystemExit}
+class InvariantBroken(AssertionError):
+    """a derived privileged exception"""
+
+
+class StopRequested(KeyboardInterrupt):
+    pass
+
+
+class Quit(SystemExit):
+    pass
+
+
+PRIV_CLASSES = {'A': AssertionError, 'KI': KeyboardInterrupt, 'SE': SystemExit,
+                'A2': InvariantBroken, 'KI2': StopRequested, 'SE2': Quit}
 
 
 def num(x):
@@ -538,6 +551,12 @@ class Interp:
         elif op == 'levels':
             r = self.handles[st['from']] if st.get('from') else self.resources[st['r']]
             ev(name, idx, 'levels', dict(r.levels))
+        elif op == 'levels_iter':
+            # the documented `for field, value in resources.levels`: the order is part of what a program sees
+            r = self.handles[st['from']] if st.get('from') else self.resources[st['r']]
+            for field, value in r.levels:
+                ev(name, idx, 'field', (field, value))
+            ev(name, idx, 'levels_repr', str(r.levels))
         elif op == 'transfer':
             p = self.pipes[st['p']]
             ev(name, idx, 'begin')
